@@ -194,6 +194,62 @@ def vacuity_mutator(fid, text):
     return None
 
 
+def verify_with_degradation(wd):
+    """build + verus; a function Verus cannot even ingest (unsupported construct, unknown callee, missing
+    decreases clause, lost annotation anchor) is re-emitted with its body dropped and its contract assumed
+    ("degraded") so that everything else is still verified.  Degraded functions are later decided by the
+    replay search only (a concrete failing input on the real code), never by the failed proof."""
+    forced = {}
+    last = None
+    for attempt in range(10):
+        try:
+            b = build(REPO, UNIT, force_external=forced)
+        except (ExtractError, L.LexError) as e:
+            raise Undecided(f"extraction: {e}")
+        path = os.path.join(wd, "rsbdd_unit.rs")
+        with open(path, "w") as f:
+            f.write(b.text)
+        res = run_verus(path, b)
+        if res.resource and not res.hard_errors:
+            res2 = run_verus(path, b, rlimit=80)
+            if res2.resource:
+                raise Undecided(f"resource limit: {res2.resource[:3]}")
+            res = res2
+        if not res.hard_errors:
+            return b, path, res
+        newly = {}
+        for hs in res.hard_sites:
+            fid = hs.get("fid")
+            if fid and fid not in forced and fid not in b.degraded:
+                newly.setdefault(fid, "verus cannot ingest the body: " + hs["message"][:200])
+        if not newly:
+            raise Undecided("verus rejected the unit outside any function under contract (unsupported construct / type error):\n"
+                            + "\n".join(res.hard_errors[:3]))
+        forced.update(newly)
+        last = res
+    raise Undecided("verus keeps rejecting the unit after degrading: " + "; ".join(forced))
+
+
+ARM_WORDS = {"C04": ["exists", "forall", "any ", "all "], "C05": ["["], "C06": ["lfp", "gfp", "mu ", "nu "]}
+
+
+def degraded_props(b, fid, found):
+    """properties charged for a concrete failing input found for a degraded function"""
+    c = b.contracts.get(fid)
+    if c is None:
+        return []
+    ps = set()
+    for cl in c.clauses:
+        ps |= set(cl.props)
+    ps |= set(c.implicit)
+    if c.arms and found is not None:
+        armprops = set(p for pp, _ in c.arms for p in pp)
+        case = found.get("case", "") or ""
+        keep = set(p for p in armprops if any(w in case for w in ARM_WORDS.get(p, [])))
+        ps = (ps - armprops) | keep
+    return sorted(ps)
+
+
 def run_property(pid, tier, seed):
     t0 = time.time()
     props = load_props()
@@ -209,32 +265,31 @@ def run_property(pid, tier, seed):
         sites, bad = access_scan(REPO)
         if bad:
             raise Undecided("intern table accessed in a form the A7 rely/guarantee argument does not cover: " + "; ".join(bad))
-        # ---- build + faithfulness
-        try:
-            b = build(REPO, UNIT)
-        except (ExtractError, L.LexError) as e:
-            raise Undecided(f"extraction: {e}")
-        path = os.path.join(wd, "rsbdd_unit.rs")
-        with open(path, "w") as f:
-            f.write(b.text)
+        # ---- build + faithfulness + verus (with degradation)
+        b, path, res = verify_with_degradation(wd)
         shape = b.fns.get("type::BDDEnv", {}).get("norm")
         if shape != "pub struct BDDEnv { pub nodes : RefCell < FxHashMap < BDD , Rc < BDD > > > , }":
             raise Undecided("BDDEnv holds state other than the intern table `nodes`; the A7 monitor abstraction (every "
                             f"RefCell<FxHashMap<BDD,Rc<BDD>>> satisfies table_inv) does not cover it: {shape}")
         # ---- assumption scan
         found = assumption_scan(b.text)
+        for fid in b.degraded:           # one `external_body` per degraded function is accounted for separately
+            key = ("#[verifier::external_body]", fid.split("::")[-1])
+            if key in found:
+                found.remove(key)
         with open(os.path.join(UNIT, "assumptions.toml"), "rb") as f:
             acfg = tomllib.load(f)
         known = {(a["kind"], a["name"]): a for a in acfg.get("assume", [])}
         from collections import Counter
         cnt = Counter(found)
+        ndeg = len(b.degraded)
         unknown = sorted(set(x for x in found if x not in known))
         if unknown:
             raise Undecided(f"unlisted trusted constructs in the unit: {unknown}")
         wrong = sorted((k, cnt.get(k, 0), a.get("count", 1)) for k, a in known.items() if cnt.get(k, 0) != a.get("count", 1))
         if wrong:
             raise Undecided(f"trusted constructs found a different number of times than listed in unit/assumptions.toml: {wrong}")
-        used_assumptions = sorted(set(known[x]["id"] for x in found))
+        used_assumptions = sorted(set(known[x]["id"] for x in found if x in known))
         # ---- baseline
         with open(os.path.join(VERIF, "baseline", "obligations.json")) as f:
             baseline = set(json.load(f)["tags"])
@@ -242,28 +297,16 @@ def run_property(pid, tier, seed):
         newtags = sorted(t for t in b.clauses if t not in baseline)
         if newtags:
             raise Undecided(f"contract clauses not in baseline/obligations.json (run ./check baseline on a verifying tree): {newtags[:5]}")
-        # ---- verus
-        rlimit = None
-        res = run_verus(path, b, rlimit=rlimit)
-        if res.resource:
-            # retry with a larger limit before giving up
-            res2 = run_verus(path, b, rlimit=80)
-            if res2.resource:
-                raise Undecided(f"resource limit: {res2.resource[:3]}")
-            res = res2
-        if res.hard_errors:
-            raise Undecided("verus rejected the unit (unsupported construct / type error / unknown callee):\n" + "\n".join(res.hard_errors[:3]))
         # ---- vacuity guard
         vac = None
-        if not os.environ.get("VT_SKIP_VACUITY"):
+        if not os.environ.get("VT_SKIP_VACUITY") and not b.degraded:
             vac = vacuity_guard(wd, b)
         # ---- thorough extras
         extra = {}
         if tier == "thorough":
             extra = thorough_extras(wd, b, path, res, seed)
-        # ---- triage
+        # ---- triage of failed obligations in functions Verus could ingest
         relevant = []
-        other = []
         arm_cache = {}
         for fl in res.failures:
             tp = tag_props(b, fl.tag)
@@ -290,37 +333,67 @@ def run_property(pid, tier, seed):
                 raise Undecided(f"a specification-library lemma failed (machinery defect, not a code defect): {fl.message} at line {fl.line}\n{fl.rendered}")
             if fl.tag and fl.tag not in baseline and fl.tag not in tags:
                 raise Undecided(f"failing obligation {fl.tag} is not in the baseline")
-            (relevant if set(tp) & set(pclosure) else other).append((fl, tp))
+            if set(tp) & set(pclosure):
+                relevant.append((fl, tp))
         ob_tags = sorted(t for t in tags if set(tag_props(b, t)) & set(pclosure))
         failed_tags = sorted(set(fl.tag for fl, _ in relevant))
-        # ---- known findings
         kf = load_known_findings()
         viol = []
-        knownhits = []
         for fl, tp in relevant:
             hit = match_known(kf, pid, pclosure, fl, b)
             if hit:
-                knownhits.append((fl, hit))
+                log(f"KNOWN-FINDING: property={pid} {hit['what']}")
             else:
-                viol.append((fl, tp))
-        for fl, hit in knownhits:
-            log(f"KNOWN-FINDING: property={pid} {hit['what']}")
+                viol.append((fl, tp, None))
+        # ---- degraded functions: only a concrete failing input on the real code decides
+        undecided = []
+        from .verus import Failure
+        rbin = None
+        for fid, reason in sorted(b.degraded.items()):
+            allp = degraded_props(b, fid, None)
+            c = b.contracts.get(fid)
+            armp = set(p for ps, _ in c.arms for p in ps) if c is not None and c.arms else set()
+            if not (set(allp) | armp) & set(pclosure):
+                continue
+            fl = Failure("unverifiable-body", "function body outside the verifier's reach: " + reason, fid, fid + "::degraded", 0, reason)
+            from . import replay as R
+            if rbin is None:
+                rbin, err = R.build_replay()
+                if rbin is None:
+                    undecided.append(f"{fid}: {reason}; and the replay crate does not build against this tree: {err[-300:]}")
+                    continue
+            foundin = R.search(pid, fl, b, tier, seed, binary=rbin)
+            if foundin is None:
+                undecided.append(f"{fid}: {reason} (replay search found no failing input)")
+                continue
+            tp = degraded_props(b, fid, foundin)
+            if set(tp) & set(pclosure):
+                hit = match_known(kf, pid, pclosure, fl, b, foundin)
+                if hit:
+                    log(f"KNOWN-FINDING: property={pid} {hit['what']}")
+                else:
+                    viol.append((fl, tp, foundin))
+                    failed_tags.append(fl.tag)
         replay_paths = []
         if viol:
             os.makedirs(os.path.join(VERIF, "replays"), exist_ok=True)
             seen = set()
-            for fl, tp in viol:
+            for fl, tp, foundin in viol:
                 if fl.tag in seen:
                     continue
                 seen.add(fl.tag)
-                rp, found_input = write_replay(pid, fl, tp, b, res, tier, seed)
+                rp, found_input = write_replay(pid, fl, tp, b, res, tier, seed, foundin)
                 replay_paths.append(rp)
                 log(f"VIOLATION property={pid} replay={rp}" + ("" if found_input else " no-failing-input-found"))
-        write_evidence(pid, tier, seed, b, res, pclosure, ob_tags, failed_tags, used_assumptions, vac, extra,
-                       len(viol), time.time() - t0, sites)
+        write_evidence(pid, tier, seed, b, res, pclosure, ob_tags + sorted(set(t for t in failed_tags if t.endswith("::degraded"))), sorted(set(failed_tags)),
+                       used_assumptions, vac, extra, len(viol), time.time() - t0, sites, info)
         if extra.get("undecided"):
             raise Undecided(extra["undecided"])
-        return 1 if viol else 0
+        if viol:
+            return 1
+        if undecided:
+            raise Undecided("functions outside the verifier's reach and no failing input found: " + " | ".join(undecided))
+        return 0
     finally:
         shutil.rmtree(wd, ignore_errors=True)
 
@@ -394,8 +467,10 @@ def site_fingerprint(fl, b):
     return {"tag": fl.tag, "kind": fl.kind, "site": re.sub(r"\s+", " ", txt)}
 
 
-def match_known(kf, pid, pclosure, fl, b):
+def match_known(kf, pid, pclosure, fl, b, found=None):
     fp = site_fingerprint(fl, b)
+    if found is not None:
+        fp = {"tag": fl.tag, "kind": fl.kind, "site": f"{found.get('mode')}:{found.get('case')}"}
     for k in kf.get("findings", []):
         if k.get("status") != "known":
             continue
@@ -406,7 +481,7 @@ def match_known(kf, pid, pclosure, fl, b):
     return None
 
 
-def write_replay(pid, fl, tp, b, res, tier, seed):
+def write_replay(pid, fl, tp, b, res, tier, seed, found=None):
     n = 0
     while os.path.exists(os.path.join(VERIF, "replays", f"{pid}-{n}.json")):
         n += 1
@@ -429,12 +504,12 @@ def write_replay(pid, fl, tp, b, res, tier, seed):
         "failing_input": None,
         "replay_cmd": None,
     }
-    found = None
-    try:
-        from .replay import search
-        found = search(pid, fl, b, tier, seed)
-    except Exception as e:          # the search is best effort and never decides anything
-        doc["replay_search_error"] = repr(e)
+    if found is None:
+        try:
+            from .replay import search
+            found = search(pid, fl, b, tier, seed)
+        except Exception as e:          # the search is best effort and never decides anything
+            doc["replay_search_error"] = repr(e)
     if found:
         doc["failing_input"] = found
         doc["replay_cmd"] = f"./check replay {rp}"
@@ -443,7 +518,7 @@ def write_replay(pid, fl, tp, b, res, tier, seed):
     return rp, bool(found)
 
 
-def write_evidence(pid, tier, seed, b, res, pclosure, ob_tags, failed_tags, used_assumptions, vac, extra, nviol, wall, sites):
+def write_evidence(pid, tier, seed, b, res, pclosure, ob_tags, failed_tags, used_assumptions, vac, extra, nviol, wall, sites, info=None):
     with open(os.path.join(UNIT, "assumptions.toml"), "rb") as f:
         acfg = tomllib.load(f)
     atext = {a["id"]: a["text"] for a in acfg.get("assumption", [])}
@@ -485,6 +560,8 @@ def write_evidence(pid, tier, seed, b, res, pclosure, ob_tags, failed_tags, used
             "source_sha256": b.sources,
             "intern_table_access_sites": sites,
             "vacuity_guard": vac,
+            "degraded_functions": dict(b.degraded),
+            "triage_notes": (info or {}).get("notes", []),
             "samples": samples,
             "explanation": "each obligation is a requires/ensures/decreases/invariant clause (or the implicit panic / overflow / "
                            "precondition obligations) Verus generated for a function whose body is copied token for token from /repo; "
@@ -541,6 +618,71 @@ def make_baseline():
         shutil.rmtree(wd, ignore_errors=True)
 
 
+PROP_MODES = {
+    "C01": ["formula"], "C02": ["ops", "quant", "count", "model", "retain", "formula"], "C03": ["ops"],
+    "C04": ["quant", "formula"], "C05": ["count", "formula"], "C06": ["fp", "formula"], "C07": ["model"],
+    "C08": ["parse"], "C09": ["formula", "index"], "C11": ["index"], "C12": ["parse", "formula", "index"],
+    "C13": ["ops", "retain", "quant", "count"], "C20": ["retain"],
+}
+
+
+def last_resort_replay(pid, tier, seed, reason):
+    from . import replay as R
+    from .verus import Failure
+    try:
+        rbin, err = R.build_replay()
+    except Exception as e:
+        return False
+    if rbin is None:
+        return False
+    kf = load_known_findings()
+    budget = "20000" if tier == "thorough" else "3000"
+    for mode in PROP_MODES.get(pid, []):
+        try:
+            p = subprocess.run([rbin, "search", mode, budget, str(seed)], capture_output=True, text=True, timeout=600)
+        except subprocess.TimeoutExpired:
+            continue
+        line = (p.stdout.strip().split("\n") or [""])[-1]
+        if p.returncode != 1 or not line.startswith("{"):
+            continue
+        try:
+            d = json.loads(line)
+        except Exception:
+            continue
+        if d.get("case") is None:
+            continue
+        tag = f"{pid}::unit-not-verifiable"
+        known = [k for k in kf.get("findings", []) if k.get("status") == "known" and k.get("property") == pid
+                 and k.get("site") == f"{d['mode']}:{d['case']}"]
+        if known:
+            log(f"KNOWN-FINDING: property={pid} {known[0]['what']}")
+            continue
+        os.makedirs(os.path.join(VERIF, "replays"), exist_ok=True)
+        n = 0
+        while os.path.exists(os.path.join(VERIF, "replays", f"{pid}-{n}.json")):
+            n += 1
+        rp = os.path.join(VERIF, "replays", f"{pid}-{n}.json")
+        with open(rp, "w") as f:
+            json.dump({"property": pid, "failed_obligation": tag, "obligation_kind": "unverifiable-unit",
+                       "verifier_output": "the unit generated from the current tree could not be verified: " + reason,
+                       "failing_input": d, "replay_cmd": f"./check replay {rp}"}, f, indent=1)
+        log(f"VIOLATION property={pid} replay={rp}")
+        write_min_evidence(pid, tier, seed, reason, d)
+        return True
+    return False
+
+
+def write_min_evidence(pid, tier, seed, reason, found):
+    ev = {"property_id": pid, "tier": tier, "seed": seed, "level": "proof",
+          "coverage": {"obligations": 1, "discharged": 0, "checker_cmd": "verus (unit rejected) + replay search on the real code",
+                       "trusted_base": [], "explanation": "the verified unit could not be generated/ingested: " + reason[:500],
+                       "samples": [found]},
+          "assumptions": [], "wall_s": 0.0, "violations": 1}
+    os.makedirs(os.path.join(VERIF, "evidence"), exist_ok=True)
+    with open(os.path.join(VERIF, "evidence", f"{pid}.json"), "w") as f:
+        json.dump(ev, f, indent=1)
+
+
 def main(argv):
     if len(argv) >= 1 and argv[0] == "baseline":
         return make_baseline()
@@ -555,6 +697,11 @@ def main(argv):
     try:
         rc = run_property(a.property, a.tier, seed)
     except Undecided as e:
+        # the proof could not be attempted / completed.  A concrete failing input on the real code is still a
+        # definite violation, so look for one before giving up (a miss leaves the verdict undecided, never OK).
+        hit = last_resort_replay(a.property, a.tier, seed, str(e))
+        if hit:
+            return 1
         log(f"UNDECIDED property={a.property} reason={e}")
         return 2
     if rc == 0:
